@@ -310,7 +310,7 @@ Section Kept.
   Lemma instantiate_owns c k d : owns d -> owns (instantiate c k d).
   Proof.
     intro H. unfold instantiate. destruct (c_lazy c); auto.
-    destruct (lookup "__new__" (body k)); apply owns_dset_built; auto; intros g Hc; discriminate.
+    destruct (lookup "__new__" (body k)) as [m|]; [destruct (wraps m)|]; apply owns_dset_built; auto; intros g Hc; discriminate.
   Qed.
 
   Lemma resolve_keys names taken todo r :
@@ -441,11 +441,12 @@ Section Kept.
   Theorem user_new_unwrapped c k d m uses :
     decorate singular c k = Ok d -> c_lazy c = true ->
     lookup "__new__" (body k) = Some m ->
-    lookup "__new__" (use_all (instantiate c k (d_dict d)) uses) = Some (EUnwrapped m).
+    lookup "__new__" (use_all (instantiate c k (d_dict d)) uses) =
+      Some (if wraps m then EUnwrapped m else EUser m).
   Proof.
     intros H Lz L.
     assert (Ho : owns (d_dict d)) by (eapply decorate_with_owns; eauto).
-    apply use_all_keeps; [now apply instantiate_owns| |intros g Hc; discriminate].
+    apply use_all_keeps; [now apply instantiate_owns| |destruct (wraps m); intros g Hc; discriminate].
     unfold instantiate. rewrite Lz, L. apply lookup_dset_same.
   Qed.
 End Kept.
